@@ -431,6 +431,14 @@ class FaultSession:
         else:
             mv, sq, ins = self._group_triple(relevant[-1])
             expect = self.phist.get((sq, ins, mv), snap)
+        # a provider restart inside the load window: what "in order", "exactly once" and "already delivered" mean
+        # afterwards depends on which instance each group and the snapshot belong to - the harness makes no such claims
+        # for these histories (in_order_mirror, duplicate_is_noop, load_exact are not judged; every other clause is)
+        restarted = any(r['act'] == 'Restart' for r in list(script['pre']) + list(script['post']))
+        cur = self._psnap()
+        if restarted or (cur['seq'], cur['inst']) != (snap['seq'], snap['inst']):
+            clean_load = False
+            relevant = []
         self.delivered_since_load = list(relevant)
         self.clean = clean_load
         self.next_expected = (relevant[-1] + 1) if relevant else (groups_after_snap[0] if groups_after_snap
